@@ -27,18 +27,35 @@ import time
 from pathlib import Path
 
 from common import PY, REPO, setup_repo_import
+from lib import c17ext
 
 ID = "C17"
-GENS = ["c17_levels"]
+GENS = ["c17_levels", "c17_hr"]
 PROOF = "Gallia.Proofs.C17"
 DRIVER = "c17"
 ORACLE = True
 ASSUMPTIONS = [
-    "json.dumps / json.loads, zstandard, gzip, mmap, datetime.isoformat/fromisoformat and logging.QueueHandler are "
-    "represented by their contracts; the escaper / string scanner contract is itself tied (esc / unesc against json)",
+    "json.dumps / json.loads, zstandard, gzip, mmap / tempfile (identity on bytes), datetime.fromtimestamp (epoch -> civil fields) and the "
+    "logging machinery up to the LogRecord are represented by their contracts; the json string escaper / scanner contract is itself tied "
+    "(esc / unesc against json); in the hr model json.loads, zstandard and gzip are functions of an environment: the theorems assume "
+    "their round-trip contracts (Env.LoadsOk, Env.Decodes, shown satisfiable), and for foreign / damaged input the harness hands the "
+    "model what the same library calls return",
+    "datetime.isoformat is modelled exactly; datetime.fromisoformat is a port of CPython 3.12's C algorithm for extended-format calendar "
+    "dates (YYYY-MM-DD...), tied in both directions on ~5k strings per run; basic-format and week dates and UTC offsets with a fraction "
+    "are outside the model (counted as outside-model, never compared)",
+    "argparse is modelled as the interpreter under /venv (CPython 3.12.1) behaves for the parser hr.parse_args() builds (its option table, "
+    "defaults, choices and exclusive group are regenerated): exact and abbreviated long options, --opt=value, attached short values, "
+    "clusters of short flags, --, negative numbers as arguments, only the first run of positionals; an explicit value `--` (-p=--) and "
+    "non-ASCII digits / whitespace in -n / -p values are outside the model",
     "text is valid Unicode (scalar values); lone surrogates are exercised for the tie only, never adjacent high+low",
-    "offset k is exercised for valid record indices (-len <= k < len, and 0 on an empty log); head / tail n for n >= 0",
-    "tags are lists of str (or absent); the file is read after the handler was closed",
+    "offset k (reader API) is exercised for valid record indices (-len <= k < len, and 0 on an empty log); hr --head / --tail also with a "
+    "negative -n (ValueError / IndexError, exit 1, as the code does)",
+    "tags are lists of str (or absent) on the writer side; on the reader side any JSON value whose effect on str(record) is determined "
+    "(null, string, list of strings, numbers, booleans); nested arrays / objects / non-integral floats where a member is interpreted are "
+    "outside the model (counted as outside-model); the file is read after the handler was closed",
+    "standard input is a pipe (read once: a second `-` sees nothing); files the process may not read are not exercised (the check runs as "
+    "root); hr's output is compared without colours (--color is parsed into the plan, ANSI styling is not modelled), month names as in "
+    "the C locale",
 ]
 
 # RFC 3164 style priorities of the seven levels (the oracle side of the level mapping)
@@ -121,6 +138,8 @@ def gen_call(rng, maxlen=40, long_ok=0):
         call["args"] = True
     if rng.random() < 0.1:
         call["child"] = True
+    if rng.random() < 0.06:
+        call["stack"] = True  # stack_info=True: the queue merges the formatted stack into the message
     if rng.random() < 0.06:  # a Python str with a lone surrogate (never a high directly followed by a low one)
         lone = chr(rng.choice([0xD800, 0xDBFF, 0xDC00, 0xDFFF, rng.randrange(0xD800, 0xE000)]))
         call["text"] = rng.choice([lone + "a" + call["text"], call["text"] + "a" + lone, lone, lone + "x" + lone])
@@ -142,9 +161,10 @@ SHRINK_LEVELS = [20, 30, 10, 40, 5, 50, 25]
 class _Capture(logging.Filter):
     """sees every LogRecord before the handlers; optionally pins the timestamp"""
 
-    def __init__(self, plan):
+    def __init__(self, plan, tz_of):
         super().__init__()
         self.plan = plan
+        self.tz_of = tz_of
         self.i = 0
         self.out = []
 
@@ -155,7 +175,8 @@ class _Capture(logging.Filter):
             record.created = call["created"]
         exc_text = logging.Formatter().formatException(record.exc_info) if record.exc_info else None
         self.out.append({"created": record.created, "line": f"{record.pathname}:{record.lineno}",
-                         "func": record.funcName, "exc_text": exc_text, "levelname": record.levelname})
+                         "func": record.funcName, "exc_text": exc_text, "levelname": record.levelname,
+                         "attrs": c17ext.attrs_of(record, self.tz_of())})
         return True
 
 
@@ -179,9 +200,13 @@ class Env:
         self.glog = glog
         self.hr = hr
         self.host = socket.gethostname()
-        self.tz = datetime.timezone(datetime.timedelta(seconds=time.localtime().tm_gmtoff))
         self.root = Path(tempfile.mkdtemp(prefix="c17-", dir=os.environ.get("VERIF_TMP") or None))
         self.n = 0
+
+    @property
+    def tz(self):
+        """the zone the writer stamps records with (`gallia.log.tz`, fixed at import; the second layer varies it)"""
+        return self.glog.tz
 
     def close(self):
         shutil.rmtree(self.root, ignore_errors=True)
@@ -197,7 +222,7 @@ class Env:
         parent = glog.get_logger(LOGGER)
         parent.setLevel(1)
         parent.propagate = False
-        cap = _Capture(calls)
+        cap = _Capture(calls, lambda: glog.tz)
         child = glog.get_logger(LOGGER + ".sub")
         logging.disable(logging.NOTSET)
         try:
@@ -214,13 +239,13 @@ class Env:
                             raise ValueError(c["exc"])
                         except ValueError:
                             if c["m"] == "exception":
-                                f(msg, *args, extra=extra)
+                                f(msg, *args, extra=extra, stack_info=bool(c.get("stack")))
                             else:
-                                f(msg, *args, exc_info=True, extra=extra)
+                                f(msg, *args, exc_info=True, extra=extra, stack_info=bool(c.get("stack")))
                     elif c["m"] == "exception":
-                        lg.error(msg, *args, extra=extra)
+                        lg.error(msg, *args, extra=extra, stack_info=bool(c.get("stack")))
                     else:
-                        f(msg, *args, extra=extra)
+                        f(msg, *args, extra=extra, stack_info=bool(c.get("stack")))
             finally:
                 glog.remove_zst_log_handler(LOGGER, h)
         finally:
@@ -230,6 +255,8 @@ class Env:
             text = c["text"] if not c["args"] else f"{c['text']}|7"
             if k["exc_text"] is not None:  # logging.Formatter.format contract
                 text = text + ("" if text.endswith("\n") else "\n") + k["exc_text"]
+            if k["attrs"]["stack"]:
+                text = text + ("" if text.endswith("\n") else "\n") + k["attrs"]["stack"]
             lv = METHOD_LEVEL[c["m"]]
             expected.append({
                 "text": text, "priority": ORACLE_PRIO[lv],
@@ -240,7 +267,7 @@ class Env:
                 "_iso": datetime.datetime.fromtimestamp(k["created"], self.tz).isoformat(),
                 "_created": k["created"],
             })
-        return Log(self, d, path, expected, len(cap.out))
+        return Log(self, d, path, expected, len(cap.out), [k["attrs"] for k in cap.out])
 
     # -- model -------------------------------------------------------------------------------------------
     def model_lines(self, expected):
@@ -253,13 +280,14 @@ class Env:
 
 
 class Log:
-    def __init__(self, env, d, zst_path, expected, n_seen):
+    def __init__(self, env, d, zst_path, expected, n_seen, attrs=None):
         import zstandard
 
         self.env = env
         self.dir = d
         self.expected = expected
         self.n_seen = n_seen
+        self.attrs = attrs or []  # what _JSONFormatter.format reads from every LogRecord (the model's LogRec)
         with open(zst_path, "rb") as f:
             self.raw = {1: zstandard.ZstdDecompressor().stream_reader(f).read()}
         lines = self.raw[1].split(b"\n")
@@ -977,7 +1005,8 @@ def run(ctx):
     rng = ctx.rng
     ctx.rule = ("a case = one sequence of log calls through the real logger and _ZstdFileHandler, read back by PenlogReader / hr; "
                 "distinct = distinct (call sequence, probe) pairs; non-trivial = the log holds >= 1 record or the probe is a "
-                "navigation on the empty log")
+                "navigation on the empty log; second layer: distinct (log, input files, argument vector, output cut) tuples of hr.main(), "
+                "distinct argument vectors against argparse, distinct foreign JSON objects against parse_json")
     t0 = time.time()
     try:
         part_levels(env, ctx)
@@ -1041,6 +1070,18 @@ def run(ctx):
             a = rng.choice([0, 1, n, n + 1, 100])
             go(calls, [("stdin", i % 2, m, a, rng.choice([8, "trace", 6, None, "warning"]))], "hr-process-stdin")
         ctx.sample({"calls": 3, "probe": "hr -p 8 -t -n 5 (plain, prefix)", "result": "the 3 records, in order"})
+        # 6. second layer: the hr command line, container detection, the record schema (lib/c17ext.py)
+        t1 = time.time()
+        follow = c17ext.argv_follow_up(env, ctx, env.write_log, simple_calls)
+        c17ext.part_small(env, ctx, follow)
+        c17ext.part_iso(env, ctx)
+        c17ext.part_argv(env, ctx, follow)
+        c17ext.part_format_direct(env, ctx)
+        c17ext.part_reader_objects(env, ctx)
+        c17ext.part_schema_written(env, ctx, env.write_log, gen_call)
+        c17ext.part_hr(env, ctx, env.write_log, simple_calls, gen_call, budget_s=20)
+        c17ext.part_process(env, ctx, env.write_log, simple_calls)
+        ctx.notes["second_layer_wall_s"] = round(time.time() - t1, 1)
     finally:
         env.close()
 
@@ -1049,6 +1090,12 @@ def replay(ctx, case):
     env = Env(ctx)
     try:
         c = case.get("case", case)
+        if c.get("kind") == "hr2":
+            return c17ext.replay_hr2(env, ctx, c, env.write_log)
+        if "plan" not in c:
+            print(json.dumps(c, indent=1)[:4000])
+            print("this case is a single call of a small function; see `what`, `impl` and `model` of the replay file")
+            return 1
         calls, plan = c["calls"], _plan_from_json(c["plan"])
         ds, _ = evaluate(env, calls, plan)
         print(json.dumps({"calls": calls, "plan": c["plan"]}, indent=1)[:4000])
@@ -1063,20 +1110,37 @@ def replay(ctx, case):
 
 
 MANIFEST = {
-    "level_text": ("Lean 4 theorems over the penlog oracle: a written line has no inner newline and is pure ASCII; splitting the "
+    "level_text": ("Lean 4 theorems over the penlog oracle. Lines: a written line has no inner newline and is pure ASCII; splitting the "
                    "file gives back exactly the written lines; the ensure_ascii escaper is inverted by the JSON string scanner for "
-                   "all Unicode text (surrogate pairs, control characters); every written line parses back to its record, with and "
+                   "all Unicode text (surrogate pairs, control characters); every written line parses back to its flat record, with and "
                    "without the <prio> prefix, and the prefix priority equals the record's; level <-> priority is a bijection on the "
                    "7 levels (table regenerated from the live enums); forward / reverse / offset k / tail n / head n / len over the "
                    "offset table equal filter, reverse, drop, drop (len - n), take, length of the logged sequence for all logs, also "
-                   "shorter than n and empty. Tied to the code by a correspondence run of the real logger -> _ZstdFileHandler -> file "
-                   "-> PenlogReader and the hr entry point (in-process and as a process reading stdin): byte-exact lines, field by "
-                   "field records, all small level sequences x modes x thresholds exhaustively, seeded Unicode text, tags, traces, "
-                   "plain/.zst/.gz/stdin, fresh and reused readers."),
-    "level_note": ("Trusted: Lean kernel (axioms propext, Quot.sound, Classical.choice), json / zstandard / gzip / mmap / datetime / "
-                   "logging.QueueHandler contracts (the json string escaper and scanner contract is itself checked against "
-                   "json.dumps / json.loads), the harness. The model parser accepts the writer's JSON shape only (key order, "
-                   "separators), not arbitrary JSON."),
-    "technique": "Lean 4 proof (induction over records / code points, parser round trip) + differential correspondence against the real logger, reader and hr",
+                   "shorter than n and empty. Schema: a logging.LogRecord (any of the 7 levels incl. TRACE / NOTICE, tags present / empty / "
+                   "absent, exception text, timestamp with microseconds and any whole-second UTC offset) through QueueHandler.prepare, "
+                   "_JSONFormatter.format and emit is read back by parse_json as exactly the expected PenlogRecord, all members "
+                   "(record_roundtrip); isoformat is inverted by a port of CPython's fromisoformat for every valid datetime; the "
+                   "written object has exactly the 12 regenerated member names; unknown members are ignored, absent optional members "
+                   "read like null, absent required members are refused. hr: the argument vector as argparse reads it (hrPlan): "
+                   "regenerated option table / defaults (100 lines, INFO), two different mode options are always refused, names and "
+                   "numbers of a priority give the same plan in any letter case; the decompressor is chosen by the name's suffix alone "
+                   "(<stem>.zst / <stem>.gz, characterised exactly) and a file stored for its name opens to its content given the codec "
+                   "round-trip contract; hr_output_eq_slice: for every argument vector that parses and every set of inputs (plain / "
+                   ".zst / .gz / standard input, with or without prefix) hr emits, file by file, exactly the slice of each written "
+                   "sequence its arguments denote, as the records read back, and exits with 0; exit codes 65 / 1 / 2 and the cut-off "
+                   "by a closed output pipe are part of the model. Tied to the code by correspondence runs of the real logger -> "
+                   "_ZstdFileHandler -> file -> PenlogReader and of hr.main() in-process and as a process: byte-exact lines, field by "
+                   "field records incl. the aware timestamp and the printed text; every small level sequence x mode x threshold; every "
+                   "mode x n in {absent, 0, 1, len-1, len, len+1} x priority by name / number x prefix x container; 1..3 inputs of mixed "
+                   "kinds (misleading names, truncated / foreign / junk content, missing, directory, fifo, stdin); ~6k argument vectors "
+                   "against argparse; ~1.9k foreign JSON objects against parse_json; ~5k strings against fromisoformat; UTC offsets "
+                   "incl. seconds-granular ones and DST switch instants."),
+    "level_note": ("Trusted: Lean kernel (axioms propext, Quot.sound, Classical.choice), json / zstandard / gzip / mmap / "
+                   "datetime.fromtimestamp contracts (json.loads, zstandard and gzip enter the hr theorems as hypotheses Env.LoadsOk / "
+                   "Env.Decodes; the json string escaper and scanner contract is itself checked against json.dumps / json.loads), "
+                   "the harness. The byte-level parser accepts the writer's JSON shape only; other JSON reaches the schema model as "
+                   "the value json.loads returns. argparse and fromisoformat are modelled as CPython 3.12.1 behaves and checked "
+                   "against the running interpreter on every run; inputs the model declares outside its scope are counted, not compared."),
+    "technique": "Lean 4 proof (induction over records / code points / argument strings, parser round trips, functional induction over the argparse loop) + regenerated tables + differential correspondence against the real logger, reader and hr",
     "design_ref": "DESIGN.md section 7, C17",
 }
